@@ -52,7 +52,7 @@ struct Reply {
 }
 
 enum Cmd {
-    Generate(Arc<str>, u64),
+    Generate(Arc<str>, u64, u32),
     Canary,
     Exit,
 }
@@ -95,16 +95,18 @@ impl SimThread {
                 TL_KEYS.with(|k| k.set(Some(keys)));
                 while let Ok(cmd) = crx.recv() {
                     match cmd {
-                        Cmd::Generate(text, env_salt) => {
+                        Cmd::Generate(text, env_salt, sim_cpus) => {
                             let g0 = GETRANDOM_IN_GENERATE.load(Ordering::SeqCst);
                             let c0 = CLOCK_READS_IN_GENERATE.load(Ordering::SeqCst);
                             let e0 = GETENV_IN_GENERATE.load(Ordering::SeqCst);
                             let s0 = THREADS_SPAWNED_IN_GENERATE.load(Ordering::SeqCst);
                             TL_ENV_SALT.with(|s| s.set(env_salt));
+                            TL_SIM_CPUS.with(|c| c.set(sim_cpus));
                             TL_IN_GENERATE.with(|f| f.set(true));
                             let outcome = run_generate(&text);
                             TL_IN_GENERATE.with(|f| f.set(false));
                             TL_ENV_SALT.with(|s| s.set(0));
+                            TL_SIM_CPUS.with(|c| c.set(0));
                             let g1 = GETRANDOM_IN_GENERATE.load(Ordering::SeqCst);
                             let c1 = CLOCK_READS_IN_GENERATE.load(Ordering::SeqCst);
                             let e1 = GETENV_IN_GENERATE.load(Ordering::SeqCst);
@@ -234,6 +236,9 @@ struct Step {
     /// non-zero: every environment variable read inside the call gets a value that is a pure
     /// function of (salt, name)
     env_salt: u64,
+    /// number of CPUs `sched_getaffinity` reports inside the call (0 = the real mask;
+    /// the canonical configuration reports 1)
+    cpus: u32,
     text: usize,
 }
 
@@ -270,7 +275,7 @@ fn timeout_outcome() -> Outcome {
 fn canonical(text: &str, base_dir: &str) -> Outcome {
     reset_ambient(base_dir);
     let t = SimThread::spawn((0, 0));
-    match t.call(Cmd::Generate(Arc::from(text), 0)) {
+    match t.call(Cmd::Generate(Arc::from(text), 0, 1)) {
         Some(r) => {
             t.retire();
             r.outcome
@@ -310,7 +315,7 @@ fn exec_script(script: &Script, texts: &[Arc<str>], base_dir: &str, upto: Option
             threads[st.inc] = Some(SimThread::spawn(script.incarnations[st.inc]));
         }
         SIM_TICK_NS.store(st.clock_tick_ns, Ordering::SeqCst);
-        let r = threads[st.inc].as_ref().unwrap().call(Cmd::Generate(texts[st.text].clone(), st.env_salt));
+        let r = threads[st.inc].as_ref().unwrap().call(Cmd::Generate(texts[st.text].clone(), st.env_salt, st.cpus));
         SIM_TICK_NS.store(0, Ordering::SeqCst);
         calls[st.inc] += 1;
         let r = match r {
@@ -418,6 +423,7 @@ fn draw_script(rng: &mut Rng, n_texts: usize, base_dir: &str) -> (Script, J) {
             mono_jump_ns: mj,
             clock_tick_ns,
             env_salt,
+            cpus: *rng.pick(&[1u32, 1, 2, 3, 8, 64, 0]),
             text: rng.below(n_texts),
         });
     }
@@ -471,6 +477,7 @@ fn script_to_json(s: &Script) -> J {
                             .set("mono_jump_ns", J::Int(st.mono_jump_ns as i128))
                             .set("clock_tick_ns", J::Int(st.clock_tick_ns as i128))
                             .set("env_salt", J::Int(st.env_salt as i128))
+                            .set("cpus", J::Int(st.cpus as i128))
                             .set("text", J::uz(st.text))
                     })
                     .collect(),
@@ -498,6 +505,7 @@ fn script_from_json(j: &J) -> Result<Script, String> {
             mono_jump_ns: st.get("mono_jump_ns").and_then(|x| x.as_int()).unwrap_or(0) as u64,
             clock_tick_ns: st.get("clock_tick_ns").and_then(|x| x.as_int()).unwrap_or(0) as u64,
             env_salt: st.get("env_salt").and_then(|x| x.as_int()).unwrap_or(0) as u64,
+            cpus: st.get("cpus").and_then(|x| x.as_int()).unwrap_or(1) as u32,
             text: st.get("text").and_then(|x| x.as_usize()).ok_or("text")?,
         });
     }
@@ -706,7 +714,7 @@ fn shrink(mut f: Failure, base_dir: &str, budget: usize) -> (Failure, usize) {
     }
     // 2. drop ambient mutations and clock jumps, step by step
     for i in 0..f.script.steps.len() {
-        for what in 0..5 {
+        for what in 0..6 {
             if steps >= budget {
                 break;
             }
@@ -721,6 +729,7 @@ fn shrink(mut f: Failure, base_dir: &str, budget: usize) -> (Failure, usize) {
                 }
                 3 if st.clock_tick_ns != 0 => st.clock_tick_ns = 0,
                 4 if st.env_salt != 0 => st.env_salt = 0,
+                5 if st.cpus != 1 => st.cpus = 1,
                 _ => continue,
             }
             steps += 1;
@@ -885,6 +894,15 @@ fn probe() -> Result<J, String> {
     if THREADS_SPAWNED_IN_GENERATE.load(Ordering::SeqCst) != s0 + 1 {
         return Err("interposed pthread_create does not observe thread creation".into());
     }
+    // (2d) the CPU count seen inside a simulated call follows the simulator
+    TL_SIM_CPUS.with(|c| c.set(3));
+    TL_IN_GENERATE.with(|f| f.set(true));
+    let par = std::thread::available_parallelism().map(|n| n.get()).unwrap_or(0);
+    TL_IN_GENERATE.with(|f| f.set(false));
+    TL_SIM_CPUS.with(|c| c.set(0));
+    if par == 0 || par > 3 {
+        return Err(format!("interposed sched_getaffinity is not in effect: available_parallelism() = {par} under 3 simulated CPUs"));
+    }
     // (3) the real clock is still reachable for accounting
     let a = real_now_s();
     if a <= 0.0 {
@@ -895,7 +913,8 @@ fn probe() -> Result<J, String> {
         .set("distinct_canary_orders_of_8_key_pairs", J::uz(orders.len()))
         .set("equal_keys_equal_order", J::Bool(true))
         .set("clock_seam", J::Bool(true))
-        .set("getenv_seam_distinct_values_of_16_salts", J::uz(seen.len())))
+        .set("getenv_seam_distinct_values_of_16_salts", J::uz(seen.len()))
+        .set("available_parallelism_under_3_simulated_cpus", J::uz(par)))
 }
 
 // --------------------------------------------------------------------- main
@@ -1298,7 +1317,7 @@ fn main() {
             let file = args.get(2).expect("text file");
             let t = std::fs::read_to_string(file).expect("read");
             let th = SimThread::spawn((0, 0));
-            let o = match th.call(Cmd::Generate(Arc::from(t.as_str()), 0)) {
+            let o = match th.call(Cmd::Generate(Arc::from(t.as_str()), 0, 1)) {
                 Some(r) => {
                     th.retire();
                     r.outcome
